@@ -12,6 +12,7 @@ import (
 	"fmt"
 	"io"
 	"math"
+	"math/rand"
 	"strconv"
 	"strings"
 
@@ -41,6 +42,47 @@ var rtReal = map[string][4][3]float64{
 	"limits": {{negZero, 0.5, 3e38}, {1e-40, -1e-40, 1}, {1.0 / 3, 2, -7}, {16777217, 0.1, -0.1}},
 	"near":   {{5, 6, 7}, {-1, 0.25, 0}, {1, 2, 3}, {1 + 1e-12, 2, 3}},
 	"tiny":   {{1e-300, 0, 0}, {0, 1e-300, 0}, {1e300, 0, 0}, {0, 0, 0}},
+}
+
+// Realisations whose coordinates are exactly representable in single precision but need more
+// decimal digits as a float64 than as a float32 (values that went through a float32: binary STL
+// / PLY imports, casts; powers of two; the float32 extremes and subnormals).  A float64-preserving
+// format must hand back the very same float64; a float32 format stores them unchanged.
+func f32v(x float32) float64 { return float64(x) }
+
+var rtRealF32 = map[string][4][3]float64{
+	"f32": {{f32v(0.1), f32v(1.0000001), f32v(123456.789)}, {float64(float32(1) / 3), -f32v(0.7), f32v(2.5e-5)},
+		{math.MaxFloat32, math.SmallestNonzeroFloat32, math.Ldexp(1, -20)}, {math.Ldexp(1, 30), -math.MaxFloat32, f32v(16777216 * 3)}},
+	"f32b": {{math.Ldexp(1, 40), math.Ldexp(1, -126), f32v(1e10)}, {-math.Ldexp(1, -149), float64(math.Float32frombits(0x00012345)), f32v(3.4e38)},
+		{f32v(1e-38), f32v(-1e-45), f32v(0.3)}, {f32v(33554434), f32v(1.1754942e-38), -f32v(6.02e23)}},
+}
+
+// rtSeededF32 draws float32 bit patterns (any exponent incl. subnormals, both signs; no NaN / Inf)
+func rtSeededF32(seed int64) [4][3]float64 {
+	rnd := rand.New(rand.NewSource(seed))
+	var res [4][3]float64
+	seen := map[float64]bool{}
+	for v := 0; v < 4; v++ {
+		for a := 0; a < 3; a++ {
+			for {
+				bits := rnd.Uint32()
+				switch rnd.Intn(4) {
+				case 0: // subnormal
+					bits &= 0x807fffff
+				case 1: // moderate exponent
+					bits = bits&0x807fffff | uint32(100+rnd.Intn(56))<<23
+				}
+				x := float64(math.Float32frombits(bits))
+				if math.IsNaN(x) || math.IsInf(x, 0) || x == 0 || seen[x] {
+					continue
+				}
+				seen[x] = true
+				res[v][a] = x
+				break
+			}
+		}
+	}
+	return res
 }
 
 func rtColor(cls int) [3]uint8 { return [3]uint8{uint8(cls * 60), uint8(255 - cls), uint8(cls)} }
@@ -372,6 +414,41 @@ func rtRun2(id *int, out *ndWriter, stats map[string]int, faces [][]int, real st
 	if len(faces) > 0 {
 		stats["nonempty"]++
 	}
+	// the row writer / reader pair directly: rows come back in the order written
+	{
+		var buf bytes.Buffer
+		var err error
+		res := [][]int{}
+		p := protect(func() {
+			w := fileformats.NewSegmentCSVWriter(&buf)
+			for _, f := range faces {
+				a, b := coords[f[0]-1], coords[f[1]-1]
+				if err = w.Write([4]float64{a[0], a[1], b[0], b[1]}); err != nil {
+					return
+				}
+			}
+			r := fileformats.NewSegmentCSVReader(bytes.NewReader(buf.Bytes()))
+			for {
+				row, e := r.Read()
+				if e == io.EOF {
+					return
+				}
+				if e != nil {
+					err = e
+					return
+				}
+				res = append(res, []int{rtName(stored, [3]float64{row[0], row[1], 0}), rtName(stored, [3]float64{row[2], row[3], 0})})
+			}
+		})
+		*id++
+		out.write(rtRec{Kind: "rt", ID: *id, Site: "SegmentCSV", Real: real, Faces: faces, Cls: cls, Out: res, Err: errText(err, p),
+			Ordered: true, Colors: true})
+		stats["records"]++
+		stats["site:SegmentCSV"]++
+		if len(faces) > 0 {
+			stats["nonempty"]++
+		}
+	}
 }
 
 type bigRec struct {
@@ -455,6 +532,13 @@ func init() {
 		if arity == 3 {
 			bigRun(&id, out, stats)
 		}
+		for k, v := range rtRealF32 {
+			rtReal[k] = v
+		}
+		seed := int64(a.int("seed", 0))
+		rtReal["f32rand"] = rtSeededF32(seed)
+		rtReal["f32rand2"] = rtSeededF32(seed + 7919)
+		rtReal["f32rand3"] = rtSeededF32(seed + 2*7919)
 		readNDJSON(a.str("in", "cases.ndjson"), func(line []byte) {
 			var faces [][]int
 			if err := json.Unmarshal(line, &faces); err != nil {
@@ -463,8 +547,11 @@ func init() {
 			if faces == nil {
 				faces = [][]int{}
 			}
-			for _, real := range []string{"plain", "limits", "near", "tiny"} {
+			for _, real := range []string{"plain", "limits", "near", "tiny", "f32", "f32b", "f32rand", "f32rand2", "f32rand3"} {
 				if arity == 3 {
+					if real == "f32rand2" || real == "f32rand3" {
+						continue // the 2-D (CSV) stage takes all seeded draws
+					}
 					if real == "tiny" {
 						continue // float32 formats: 1e-300 and 0 are not distinguishable vertices
 					}
